@@ -157,12 +157,12 @@ func runCase(run *vh.Run, idx int, c Case) *obs {
 	run.Count(key, nontrivial)
 
 	if timedOut {
-		run.Fail(idx, "gateway-request-hangs", text, c)
+		failCapped(run, idx, "gateway-request-hangs", text, c)
 		return ob
 	}
 	for _, s := range ob.res.subs {
 		if s.Sig != "" {
-			run.Fail(idx, s.Sig, fmt.Sprintf("service %s got {%s}: %s  (query: %s)", s.Service, short(s.Text, 300), s.Problem, short(text, 300)), c)
+			failCapped(run, idx, s.Sig, fmt.Sprintf("service %s got {%s}: %s  (query: %s)", s.Service, short(s.Text, 300), s.Problem, short(text, 300)), c)
 			break
 		}
 	}
@@ -173,14 +173,14 @@ func runCase(run *vh.Run, idx int, c Case) *obs {
 		run.Hist("outcome:mono-error-only")
 		// the monolith rejects or fails but the gateway answers: the gateway answered a query the combined
 		// server does not accept
-		run.Fail(idx, "gateway-answers-what-monolith-rejects", fmt.Sprintf("monolith: %s; gateway: %s; query: %s", short(monoErr, 200), short(js(gw), 200), short(text, 400)), c)
+		failCapped(run, idx, "gateway-answers-what-monolith-rejects", fmt.Sprintf("monolith: %s; gateway: %s; query: %s", short(monoErr, 200), short(js(gw), 200), short(text, 400)), c)
 	case gwErr != "":
 		run.Hist("outcome:gateway-error-only")
 		sig := "gateway-error-monolith-ok"
 		if strings.Contains(gwErr, "not an object: map[]") {
 			sig = "gateway-fails-on-null-at-service-hop"
 		}
-		run.Fail(idx, sig, fmt.Sprintf("gateway: %s; monolith: %s; query: %s", short(gwErr, 300), short(js(mono), 200), short(text, 400)), c)
+		failCapped(run, idx, sig, fmt.Sprintf("gateway: %s; monolith: %s; query: %s", short(gwErr, 300), short(js(mono), 200), short(text, 400)), c)
 	default:
 		run.Hist("outcome:both-ok")
 		strips := unionTypenameStrips(&c, retMap(c.Services), frags)
@@ -206,13 +206,13 @@ func runCase(run *vh.Run, idx int, c Case) *obs {
 			if isSubset(gwN, monoN) {
 				sig = "gateway-drops-selections"
 			}
-			run.Fail(idx, sig, fmt.Sprintf("gateway: %s; monolith: %s; query: %s", short(js(gwN), 500), short(js(monoN), 500), short(text, 500)), c)
+			failCapped(run, idx, sig, fmt.Sprintf("gateway: %s; monolith: %s; query: %s", short(js(gwN), 500), short(js(monoN), 500), short(text, 500)), c)
 		case !monoOK && !deepEqualJSON(gwN, refN) && !deepEqualJSON(gwN, monoN):
 			sig := "gateway-differs-from-reference"
 			if isSubset(gwN, refN) {
 				sig = "gateway-drops-selections"
 			}
-			run.Fail(idx, sig, fmt.Sprintf("gateway: %s; reference: %s; monolith: %s; query: %s", short(js(gwN), 400), short(js(refN), 400), short(js(monoN), 400), short(text, 500)), c)
+			failCapped(run, idx, sig, fmt.Sprintf("gateway: %s; reference: %s; monolith: %s; query: %s", short(js(gwN), 400), short(js(refN), 400), short(js(monoN), 400), short(text, 500)), c)
 		case !monoOK && deepEqualJSON(gwN, monoN):
 			run.Hist("gateway-and-monolith-deviate-alike")
 		}
@@ -313,4 +313,17 @@ func isSubset(a, b interface{}) bool {
 		return true
 	}
 	return deepEqualJSON(a, b)
+}
+
+// failCapped records at most 12 failures per signature (vh.Run keeps 200 in all), so that a frequent signature
+// -- e.g. an open known finding -- cannot crowd out a different one; the rest are counted in the histogram.
+var failCount = map[string]int{}
+
+func failCapped(run *vh.Run, idx int, sig, detail string, c interface{}) {
+	failCount[sig]++
+	if failCount[sig] > 12 {
+		run.Hist("failures-not-listed:" + sig)
+		return
+	}
+	run.Fail(idx, sig, detail, c)
 }
